@@ -3,6 +3,7 @@
 //! are driven without touching it.
 #![allow(dead_code, unused_imports)]
 extern crate serde_json;
+extern crate native_tls;
 
 mod gui {
     include!("/repo/src/bin/mstsc-rs.rs");
@@ -19,6 +20,7 @@ mod gui {
 }
 
 mod blit;
+mod rx;
 
 fn main() {
     let args: Vec<String> = std::env::args().collect();
@@ -26,6 +28,7 @@ fn main() {
     std::panic::set_hook(Box::new(|_| {}));
     let code = match args[1].as_str() {
         "blit" => blit::run(&args),
+        "rx" => rx::run(&args),
         _ => 2,
     };
     std::process::exit(code);
